@@ -1,9 +1,12 @@
 #!/usr/bin/env python3
 """Run the registered quick checks against each confirmed seeded change (applied to a scratch copy of /repo).
-usage: run_seeds.py [seed names...] [--checks C01,C02]   -> seeded/RESULTS.json"""
-import json, os, re, shutil, subprocess, sys, time
-V = '/verif'
-SCR = '/tmp/scratch/repo'
+usage: run_seeds.py [seed names...] [--checks=C01,C02] [--slots=3] [--jobs=5] [--out=seeded/RESULTS.json]
+Each slot has its own scratch copy of /repo and its own export cache (under /tmp/mcv-seeds/<slot>), removed at the end.
+Evidence files of /verif are not touched (with MCV_REPO set, evidence goes to a temporary directory)."""
+import json, os, re, shutil, subprocess, sys, time, threading, queue
+from concurrent.futures import ThreadPoolExecutor
+V = os.path.dirname(os.path.dirname(os.path.abspath(__file__)))
+ROOT = '/tmp/mcv-seeds-%d' % os.getpid()
 args = [a for a in sys.argv[1:] if not a.startswith('--')]
 opt = dict(a[2:].split('=', 1) for a in sys.argv[1:] if a.startswith('--') and '=' in a)
 man = json.load(open(V + '/MANIFEST.json'))
@@ -11,41 +14,68 @@ claimed = [c['property_id'] for c in man['checks']]
 checks = opt.get('checks', ','.join(claimed)).split(',')
 seeds = args or sorted(os.listdir(V + '/seeded'))
 seeds = [s for s in seeds if os.path.isdir(os.path.join(V, 'seeded', s))]
-resf = V + '/seeded/RESULTS.json'
+resf = os.path.join(V, opt.get('out', 'seeded/RESULTS.json'))
 results = json.load(open(resf)) if os.path.exists(resf) else {}
+lock = threading.Lock()
+q = queue.Queue()
 for s in seeds:
+    q.put(s)
+
+
+def run_seed(s, slot):
     d = os.path.join(V, 'seeded', s)
     meta = json.load(open(d + '/meta.json'))
-    os.makedirs('/tmp/scratch', exist_ok=True)
-    subprocess.check_call(['rsync', '-a', '--delete', '--exclude', 'target', '--exclude', '.git', '/repo/', SCR + '/'])
-    p = subprocess.run(['patch', '-p1', '-s', '-i', d + '/patch.diff'], cwd=SCR, stdout=subprocess.PIPE, stderr=subprocess.STDOUT, text=True)
+    base = os.path.join(ROOT, str(slot))
+    scr = os.path.join(base, 'repo')
+    os.makedirs(base, exist_ok=True)
+    subprocess.check_call(['rsync', '-a', '--delete', '--exclude', 'target', '--exclude', '.git', '/repo/', scr + '/'])
+    p = subprocess.run(['patch', '-p1', '-s', '-i', d + '/patch.diff'], cwd=scr, stdout=subprocess.PIPE, stderr=subprocess.STDOUT, text=True)
     if p.returncode != 0:
-        results[s] = {'property': meta['property'], 'error': 'patch does not apply to the current /repo: ' + p.stdout[-300:]}
-        print(s, 'PATCH FAILED')
-        continue
-    row = {'property': meta['property'], 'summary': meta.get('summary', '')[:200], 'detected_by': {}, 'ran': checks, 'when': time.strftime('%F %T')}
-    env = dict(os.environ, MCV_REPO=SCR)
+        return {'property': meta['property'], 'error': 'patch does not apply to the current /repo: ' + p.stdout[-300:]}
+    row = {'property': meta['property'], 'summary': (meta.get('summary') or '')[:200], 'detected_by': {}, 'ran': checks, 'when': time.strftime('%F %T')}
+    env = dict(os.environ, MCV_REPO=scr, MCV_CACHE=os.path.join(base, 'cache'), MCV_EVDIR=os.path.join(base, 'evidence'))
     order = [meta['property']] + [c for c in checks if c != meta['property']]
     order = [c for c in order if c in checks]
 
     def one(c):
-        q = subprocess.run(['./bin/check', c, '--tier', 'quick'], cwd=V, env=env, stdout=subprocess.PIPE, stderr=subprocess.STDOUT, text=True)
-        return c, q.stdout
+        r = subprocess.run(['./bin/check', c, '--tier', 'quick'], cwd=V, env=env, stdout=subprocess.PIPE, stderr=subprocess.STDOUT, text=True)
+        return c, r.stdout, r.returncode
     # the first check builds the exports of this tree state; the others then share the cache
     outs = [one(order[0])] if order else []
-    from concurrent.futures import ThreadPoolExecutor
     with ThreadPoolExecutor(max_workers=int(opt.get('jobs', '5'))) as ex:
         outs += list(ex.map(one, order[1:]))
-    for c, out in outs:
+    for c, out, rc in outs:
         lines = [l for l in out.splitlines() if not l.startswith(('VIOLATION', 'KNOWN-FINDING', '[', 'BROKEN'))]
         nv = out.count('VIOLATION property=')
         nb = out.count('BROKEN-PRECONDITION')
-        if nv or nb:
-            row['detected_by'][c] = {'violations': nv, 'broken': nb, 'first': (lines[0][:300] if lines else ([l for l in out.splitlines() if l.startswith('BROKEN')] or [''])[0][:300])}
-    results[s] = row
-    print(s, meta['property'], '->', {k: v['violations'] or ('broken:%d' % v['broken']) for k, v in row['detected_by'].items()} or 'MISSED')
-    json.dump(results, open(resf, 'w'), indent=1)
-# restore evidence from the real tree
-print('re-running checks on /repo to restore evidence files')
-for c in checks:
-    subprocess.run(['./bin/check', c, '--tier', 'quick'], cwd=V, stdout=subprocess.DEVNULL, stderr=subprocess.DEVNULL)
+        if nv or nb or rc != 0:
+            row['detected_by'][c] = {'violations': nv, 'broken': nb, 'rc': rc,
+                                     'first': (lines[0][:300] if lines else ([l for l in out.splitlines() if l.startswith('BROKEN')] or [''])[0][:300])}
+    return row
+
+
+def worker(slot):
+    while True:
+        try:
+            s = q.get_nowait()
+        except queue.Empty:
+            return
+        try:
+            row = run_seed(s, slot)
+        except Exception as e:  # noqa
+            row = {'property': '?', 'error': 'runner: %r' % e}
+        with lock:
+            results[s] = row
+            json.dump(results, open(resf, 'w'), indent=1, sort_keys=True)
+            if 'error' in row:
+                print(s, 'ERROR', row['error'][:200], flush=True)
+            else:
+                print(s, row['property'], '->', {k: v['violations'] or ('broken:%d' % v['broken']) for k, v in row['detected_by'].items()} or 'MISSED', flush=True)
+
+
+ts = [threading.Thread(target=worker, args=(i,)) for i in range(int(opt.get('slots', '3')))]
+for t in ts:
+    t.start()
+for t in ts:
+    t.join()
+shutil.rmtree(ROOT, ignore_errors=True)
